@@ -1,3 +1,138 @@
-// Package simos stands in for "os" in the packages under test. Everything not
-// defined here is re-exported from the real package by a generated file.
+// Package simos stands in for "os" in the packages under test (import rewrite on a
+// scratch copy). Everything not defined here is re-exported from the real package by
+// a generated file. The functions below consult a hook before touching the real file
+// system: the hook may park the calling goroutine (scheduler seam) and may return a
+// fault. Without a hook they are the real functions.
 package simos
+
+import (
+	"io/fs"
+	real "os"
+	"path/filepath"
+	"sync/atomic"
+	"syscall"
+	"time"
+)
+
+// Fault is the hook's verdict for one operation.
+type Fault struct {
+	Kind string // "", "eio", "enospc", "short"
+}
+
+// HookT is installed by a world for the duration of a run.
+type HookT struct {
+	// Before is called before the operation; it may block.
+	Before func(op, path string) Fault
+	// Now, when set, supplies the modification time given to every written file.
+	Now func() time.Time
+}
+
+var hook atomic.Pointer[HookT]
+
+// SetHook installs (or, with nil, removes) the hook.
+func SetHook(h *HookT) { hook.Store(h) }
+
+func before(op, path string) (Fault, *HookT) {
+	h := hook.Load()
+	if h == nil || h.Before == nil {
+		return Fault{}, h
+	}
+	return h.Before(op, path), h
+}
+
+func pathErr(op, path string, errno syscall.Errno) error {
+	return &fs.PathError{Op: op, Path: path, Err: errno}
+}
+
+func Stat(name string) (real.FileInfo, error) {
+	if f, _ := before("Stat", name); f.Kind == "eio" {
+		return nil, pathErr("stat", name, syscall.EIO)
+	}
+	return real.Stat(name)
+}
+
+func Lstat(name string) (real.FileInfo, error) {
+	if f, _ := before("Lstat", name); f.Kind == "eio" {
+		return nil, pathErr("lstat", name, syscall.EIO)
+	}
+	return real.Lstat(name)
+}
+
+func ReadFile(name string) ([]byte, error) {
+	f, _ := before("ReadFile", name)
+	switch f.Kind {
+	case "eio":
+		return nil, pathErr("read", name, syscall.EIO)
+	}
+	return real.ReadFile(name)
+}
+
+func WriteFile(name string, data []byte, perm real.FileMode) error {
+	f, h := before("WriteFile", name)
+	switch f.Kind {
+	case "enospc":
+		return pathErr("write", name, syscall.ENOSPC)
+	case "short":
+		_ = real.WriteFile(name, data[:len(data)/2], perm)
+		stamp(h, name)
+		return pathErr("write", name, syscall.ENOSPC)
+	case "eio":
+		return pathErr("write", name, syscall.EIO)
+	}
+	err := real.WriteFile(name, data, perm)
+	if err == nil {
+		stamp(h, name)
+	}
+	return err
+}
+
+func stamp(h *HookT, name string) {
+	if h != nil && h.Now != nil {
+		t := h.Now()
+		_ = real.Chtimes(name, t, t)
+	}
+}
+
+func Remove(name string) error {
+	if f, _ := before("Remove", name); f.Kind == "eio" {
+		return pathErr("remove", name, syscall.EIO)
+	}
+	return real.Remove(name)
+}
+
+func Open(name string) (*real.File, error) {
+	if f, _ := before("Open", name); f.Kind == "eio" {
+		return nil, pathErr("open", name, syscall.EIO)
+	}
+	return real.Open(name)
+}
+
+func Create(name string) (*real.File, error) {
+	if f, _ := before("Create", name); f.Kind == "enospc" {
+		return nil, pathErr("open", name, syscall.ENOSPC)
+	}
+	return real.Create(name)
+}
+
+// DirFS wraps the real directory file system so that directory reads are seams too.
+func DirFS(dir string) fs.FS { return simFS{FS: real.DirFS(dir), dir: dir} }
+
+type simFS struct {
+	fs.FS
+	dir string
+}
+
+func (s simFS) Open(name string) (fs.File, error) {
+	before("Open", filepath.Join(s.dir, name))
+	return s.FS.Open(name)
+}
+
+func (s simFS) ReadDir(name string) ([]fs.DirEntry, error) {
+	before("ReadDir", filepath.Join(s.dir, name))
+	return fs.ReadDir(s.FS, name)
+}
+
+func (s simFS) Stat(name string) (fs.FileInfo, error) {
+	before("Stat", filepath.Join(s.dir, name))
+	return fs.Stat(s.FS, name)
+}
